@@ -217,6 +217,7 @@ pub fn check_in(f: &F, names: &Names, g: &SymbolicAsyncGraph, outer: &HashMap<St
     }
     }
     let mut memo: HashMap<F, Result<GraphColoredVertices, String>> = HashMap::new();
+    let mut first_case = true;
     for (g2, subs) in cases(f, max_sim, skip_atoms) {
         n += 1;
         let mut ctx = outer.clone();
@@ -244,6 +245,23 @@ pub fn check_in(f: &F, names: &Names, g: &SymbolicAsyncGraph, outer: &HashMap<St
                 subs.iter().map(|(w, s)| format!("%{}% := result of {}", names.wilds[*w as usize], s.show(names))).collect::<Vec<_>>().join(", ")
             )),
             Err(e) => bad.push(format!("{t2} fails: {e}")),
+        }
+        // the same substitution through the multi-formula entry point, as a list [rewritten, original, True] (three
+        // trees of different heights): every position must carry the answer of ITS formula
+        if first_case {
+            first_case = false;
+            n += 1;
+            let list = vec![t2.as_str(), text.as_str(), "True"];
+            match guarded(AssertUnwindSafe(|| mc::model_check_multiple_extended_formulae_dirty(list.clone(), g, &ctx))) {
+                Ok(Ok(v)) if v.len() == 3 => {
+                    if v[0] != base || v[1] != base || v[2] != g.mk_unit_colored_vertices() {
+                        bad.push(format!("model_check_multiple_extended_formulae_dirty({list:?}): position {} does not carry the result of its formula", if v[0] != base { 0 } else if v[1] != base { 1 } else { 2 }));
+                    }
+                }
+                Ok(Ok(v)) => bad.push(format!("model_check_multiple_extended_formulae_dirty({list:?}) returns {} results", v.len())),
+                Ok(Err(e)) => bad.push(format!("model_check_multiple_extended_formulae_dirty({list:?}) fails: {e}")),
+                Err(p) => bad.push(format!("model_check_multiple_extended_formulae_dirty({list:?}) panics: {p}")),
+            }
         }
         if bad.len() > 3 {
             break;
@@ -453,6 +471,6 @@ pub fn run(tier: &str) -> Result<Report, String> {
     rep.evaluations = total;
     rep.distinct_nontrivial = total.saturating_sub(3 * rep.extra.get("formulae_x_networks").and_then(|v| v.as_u64()).unwrap_or(0));
     rep.sample(json!({"formula": "((!{x}: (AX {x})) & (EF a))", "case": "(%p% & (EF %q%)) with p := result of (!{x}: (AX {x})), q := result of a", "oracle": "raw result must equal (BDD equality) model_check_formula_dirty of the original"}));
-    rep.rule = format!("for every closed plain formula with <= {m} nodes (quick: 4 on con2 and asy2) and every plain template formula (benchmark formulae, quantifier nests, sub-formulae duplicated up to renaming at equal / different depths) on the core networks {which:?}: every non-empty antichain of at most 3 closed proper sub-formula occurrences (atoms included) is replaced by wild-cards bound to model_check_formula_dirty of the sub-formula (once with a fresh wild-card per occurrence, once with one shared wild-card for equal sub-formulae), and the extended evaluation must equal the plain result as a set (formulae with <= 3 nodes also with the fresh labels named 1, true, 0); plus the identity cases (plain formula through the extended entry points with an empty context); the same for surrounding formulae that themselves contain wild-cards and restricted domains (extended templates and all extended formulae with <= 3, thorough 4, nodes; label families mixed and colour-disjoint; antichains of <= 2). On the bundled models {:?}: benchmark-style formulae with all antichains of <= 2 non-atomic closed sub-formulae. distinct_nontrivial = number of substitution cases, i.e. evaluations minus the three identity calls per formula (each case a distinct (formula, replaced occurrences, label sharing) triple)", bigmodels::family(tier));
+    rep.rule = format!("for every closed plain formula with <= {m} nodes (quick: 4 on con2 and asy2) and every plain template formula (benchmark formulae, quantifier nests, sub-formulae duplicated up to renaming at equal / different depths) on the core networks {which:?}: every non-empty antichain of at most 3 closed proper sub-formula occurrences (atoms included) is replaced by wild-cards bound to model_check_formula_dirty of the sub-formula (once with a fresh wild-card per occurrence, once with one shared wild-card for equal sub-formulae), and the extended evaluation must equal the plain result as a set (formulae with <= 3 nodes also with the fresh labels named 1, true, 0); plus, for the first substitution case of every formula, the list [rewritten, original, True] through model_check_multiple_extended_formulae_dirty (every position must carry the result of its formula); plus the identity cases (plain formula through the extended entry points with an empty context); the same for surrounding formulae that themselves contain wild-cards and restricted domains (extended templates and all extended formulae with <= 3, thorough 4, nodes; label families mixed and colour-disjoint; antichains of <= 2). On the bundled models {:?}: benchmark-style formulae with all antichains of <= 2 non-atomic closed sub-formulae. distinct_nontrivial = number of substitution cases, i.e. evaluations minus the three identity calls per formula (each case a distinct (formula, replaced occurrences, label sharing) triple)", bigmodels::family(tier));
     Ok(rep)
 }
